@@ -529,3 +529,53 @@ Fixpoint check_steps (n : nat) (maxinc : Z) (s : pstate) (i : nat)
 
 Definition check_pcase (c : pcase) : option val :=
   check_steps (pc_n c) (pc_maxinc c) (pinit (pc_h0 c)) 0 (pc_steps c).
+
+(** * Canonical fair schedule: every live member ticks, everything pooled is
+    executed, a block passes — repeated. [order] is the map iteration order
+    used whenever the leader finalises. *)
+Definition round (live : list nat) (nonce : Z) (order : list nat) : list label :=
+  map (fun k => LTick k nonce order) live ++ [LLandAll; LBlock].
+
+Definition fair_rounds (r : nat) (live : list nat) (nonce : Z) (order : list nat) : list label :=
+  concat (repeat (round live nonce order) r).
+
+(** Live sets as bit masks over members 0..n-1. *)
+Definition live_of (mask : list bool) (i : nat) : bool := nth i mask false.
+Definition members (mask : list bool) : list nat :=
+  List.filter (live_of mask) (seq 0 (length mask)).
+
+Fixpoint all_masks (n : nat) : list (list bool) :=
+  match n with
+  | O => [[]]
+  | S n' => flat_map (fun m => [true :: m; false :: m]) (all_masks n')
+  end.
+
+(** * (c) Expected final state of deploy.Deploy run by all n members
+    (deploy.go:170-645), as observed by harness/deploy_e2e_test.go.
+
+    Names of the [neofs] zone are coded: 0 proxy, 1 audit, 2 netmap,
+    3 balance, 4 reputation, 5 neofsid, 6 container, 100+i alphabet<i>. *)
+Record final_obs := mkFinal {
+  fo_returned_nil : nat;                 (* members whose Deploy returned nil *)
+  fo_notary : bool;                      (* P2PNotary designated to exactly the committee *)
+  fo_alphabet : bool;                    (* NeoFSAlphabet designated to exactly the committee *)
+  fo_nns_id1 : bool;                     (* contract with ID 1 is the NNS *)
+  fo_contracts : nat;                    (* deployed (non-native) contracts *)
+  fo_names : list (nat * nat);           (* name code, number of on-chain contracts carrying the supplied
+                                            executable that the name resolves to *)
+  fo_distinct : bool;                    (* all names resolve to pairwise distinct contracts *)
+  fo_rerun_returned_nil : nat;           (* second run of every member on the finished chain *)
+  fo_rerun_sent : nat                    (* transactions and notary requests the second run sent *)
+}.
+
+Global Instance final_obs_eq_dec : EqDecision final_obs.
+Proof. solve_decision. Defined.
+
+Definition final_state (n : nat) : final_obs :=
+  mkFinal n true true true (8 + n)
+          (map (fun c => (c, 1%nat)) (seq 0 7 ++ map (fun i => (100 + i)%nat) (seq 0 n)))
+          true n 0.
+
+Definition check_final (c : nat * final_obs) : option val :=
+  if bool_decide (snd c = final_state (fst c)) then None
+  else Some (VList [VInt (Z.of_nat (fst c)); VInt (Z.of_nat (fo_contracts (snd c)))]).
